@@ -807,6 +807,8 @@ class Verifier(Engine):
                 i = self.norm_index(st, idx, n, 'list store')
                 st.lset_all(recv.t, z3.Store(st.larr(recv.t, recv.ek), i, self.elem_term(v, recv.ek)), recv.ek)
             elif isinstance(recv, VMap):
+                if isinstance(v, VTuple) and recv.vk == 'any':
+                    v = VAny(st.alloc('tuple'))        # a tuple stored as an opaque value
                 st.mput(recv.t, self.map_key(recv, idx), self.as_ref(v) if not isinstance(v, VInt) else v.t, recv.kk)
             elif isinstance(recv, VRef):
                 self.map_set(st, recv, idx, v)
